@@ -14,4 +14,5 @@ def run(ctx):
     return run_parts(ctx, [
         Part('joins', 'corr_joins', 'run', [s, 300 if q else 6000, MEASURES], specs={'complete_spec'}),
         Part('formulas', 'corr_formulas', 'run_std', [s, 600 if q else 6000]),
+        Part('index_code', 'corr_index', 'run', [s, 150 if q else 3000]),
     ], RULE)
